@@ -38,12 +38,20 @@ Applicable(n, m) ==
   /\ ~(m.t = "V" /\ m.by = n)
   /\ m.h = node[n].h \/ (m.t = "V" /\ m.h + 1 = node[n].h)
 
+\* The round of a block part message carries no information: addProposalBlockPart ignores it ("blocks might be reused, so
+\* round mismatch is OK", and so does AddPart above), and the reactor's catch-up gossip stamps the parts it reads from the
+\* block store with the round it believes the PEER to be in, not with the round the block was proposed in. Causality of a
+\* part is therefore: some part message of the same height for the same block was made visible before.
+SameBlock(m) == {x \in net : x.t = "B" /\ x.h = m.h /\ x.v = m.v}
+Norm(m) == IF m.t = "B" /\ m \notin net /\ SameBlock(m) # {} THEN CHOOSE x \in SameBlock(m) : TRUE ELSE m
+
 TPeer ==
   /\ Ev.a = "Peer"
-  /\ Ev.m \in net                            \* causality: made visible by its author before
-  /\ IF Applicable(Ev.n, Ev.m)
-       THEN PeerP(Ev.n, Ev.m, IF Ev.pk \in Vals THEN Ev.pk ELSE (IF Ev.m.t = "V" THEN Ev.m.by ELSE Ev.n))
-       ELSE UNCHANGED vars                   \* other height / own vote echoed: the handler ignores it
+  /\ LET m == Norm(Ev.m) IN
+       /\ m \in net                           \* causality: made visible by its author before
+       /\ IF Applicable(Ev.n, m)
+            THEN PeerP(Ev.n, m, IF Ev.pk \in Vals THEN Ev.pk ELSE (IF m.t = "V" THEN m.by ELSE Ev.n))
+            ELSE UNCHANGED vars                \* other height / own vote echoed: the handler ignores it
   /\ Matches(node'[Ev.n], Ev.post)
   /\ Book /\ UNCHANGED used
 
